@@ -10,6 +10,7 @@ use rusty_penguin_lib::arg::{ClientArgs, Remote, ServerUrl};
 use rusty_penguin_lib::client;
 use std::panic::AssertUnwindSafe;
 use std::str::FromStr;
+use std::sync::atomic::{AtomicBool, Ordering};
 use std::sync::{Arc, Mutex};
 use std::time::{Duration, Instant};
 use tokio::io::{AsyncReadExt, AsyncWriteExt};
@@ -344,7 +345,7 @@ pub enum LocalRes {
     /// the token came back unmodified
     Echo { connected_ms: f64, echo_ms: f64 },
     /// the listener refused the connection
-    Refused { t_ms: f64, err: String },
+    Refused { t_ms: f64, err: String, startup: bool },
     /// the connection was closed / reset by the client before the whole token came back
     Closed { connected_ms: f64, closed_ms: f64, got: usize, err: String },
     /// bytes came back, but not the token
@@ -367,7 +368,7 @@ pub struct LocalConn {
 
 /// Open a local connection, send a token, wait for its echo. `startup` allows
 /// `ConnectionRefused` for a while (the client binds its listener asynchronously).
-pub fn open_local(lport: u16, origin: &'static str, idx: usize, startup: bool, sh: &Arc<Shared>) -> LocalConn {
+pub fn open_local(lport: u16, origin: &'static str, idx: usize, listener_seen: Arc<AtomicBool>, sh: &Arc<Shared>) -> LocalConn {
     let token: Vec<u8> = format!("C19-token-{origin}-{idx}-{lport}-0123456789abcdef").into_bytes();
     let open_before_ms = sh.now_ms();
     let sh2 = sh.clone();
@@ -375,15 +376,19 @@ pub fn open_local(lport: u16, origin: &'static str, idx: usize, startup: bool, s
     let task = tokio::spawn(async move {
         let sh = sh2;
         let started = Instant::now();
+        // the client binds its listener asynchronously: refusals are part of the start-up
+        // until some local connection has been accepted once
+        let startup = !listener_seen.load(Ordering::SeqCst);
         let mut s = loop {
             match TcpStream::connect(("127.0.0.1", lport)).await {
                 Ok(s) => break s,
-                Err(e) if startup && e.kind() == std::io::ErrorKind::ConnectionRefused && started.elapsed() < Duration::from_secs(20) => {
+                Err(e) if e.kind() == std::io::ErrorKind::ConnectionRefused && !listener_seen.load(Ordering::SeqCst) && started.elapsed() < Duration::from_secs(20) => {
                     tokio::time::sleep(Duration::from_millis(20)).await;
                 }
-                Err(e) => return LocalRes::Refused { t_ms: sh.now_ms(), err: e.to_string() },
+                Err(e) => return LocalRes::Refused { t_ms: sh.now_ms(), err: e.to_string(), startup: startup && !listener_seen.load(Ordering::SeqCst) },
             }
         };
+        listener_seen.store(true, Ordering::SeqCst);
         let connected_ms = sh.now_ms();
         if let Err(e) = s.write_all(&tok).await {
             return LocalRes::Closed { connected_ms, closed_ms: sh.now_ms(), got: 0, err: format!("write: {e}") };
@@ -397,7 +402,7 @@ pub fn open_local(lport: u16, origin: &'static str, idx: usize, startup: bool, s
                 Ok(n) => got.extend_from_slice(&buf[..n]),
             }
         }
-        if got == tok { LocalRes::Echo { connected_ms, echo_ms: sh.now_ms() } } else { LocalRes::Corrupt { connected_ms, got_hex: vcommon::report::hex(&got[..got.len().min(64)]) } }
+        if got == tok { LocalRes::Echo { connected_ms, echo_ms: sh.now_ms() } } else { LocalRes::Corrupt { connected_ms, got_hex: crate::report::hex(&got[..got.len().min(64)]) } }
     });
     LocalConn { origin, through_mute: false, open_before_ms, token, task, result: None, deadline_hit: false }
 }
